@@ -184,8 +184,11 @@ func (p *Parser) GenerateBaseCode() (code string, err error) {
 		}
 
 		// Insert markers.
-		util.InsertComment(p.file, entry.marker, minPos)
+		// The closing one goes first: a marker occupies no source bytes of its own, so
+		// an opening marker already in place would absorb the closing one into its
+		// comment group when the interface body is shorter than the marker text.
 		util.InsertComment(p.file, entry.marker, maxPos)
+		util.InsertComment(p.file, entry.marker, minPos)
 	}
 
 	var buf bytes.Buffer
